@@ -36,6 +36,8 @@ It is possible to specify alternative genetic code with --genetic-code
 IUPAC codes are taken into account for the translation. If a codon containing 
 IUPAC code is ambiguous for translation, then a X is added in place of the aminoacid.
 
+--ref-seq cannot be combined with --phase -1 (an error is returned).
+
 If --ref-seq is given, be careful about the behavior! As with goalign extract, it will will translate
 the alignment with the following process: The alignment will be translated codon by
 codon using the given reference sequence as guide, by iterating over the reference non gap nucleotides 3 by 3. 
